@@ -58,6 +58,9 @@ Definition no_nul (s : str) : bool := negb (memb 0 s).
    of quote and backslash.  A line break inside a literal is accepted by the recogniser in both cases. *)
 Definition name_lit_ok (escaped : bool) (s : str) : bool := if escaped then no_nul s else lit_plain s.
 Definition comment_safe (s : str) : bool := negb (memb c_nl s) && negb (memb c_cr s) && negb (memb 0 s).
+(* the schema name in the header comment: written on one line (flag from the translator; repo b75eb16) only a NUL is
+   excluded; pasted raw it must also be free of CR / LF *)
+Definition header_ok (one_line : bool) (s : str) : bool := if one_line then no_nul s else comment_safe s.
 
 Definition cst_scope_ok (c : cst) : bool :=
   match c with
@@ -72,7 +75,8 @@ Definition bit (b : bool) (k : N) : N := if b then N.shiftl 1 k else 0.
    bit0 a sanitised rule name contains `_`            bit1 two fields share a sanitised rule name
    bit2 a sanitised rule name is a structural name    bit3 a field name is not re-read from its literal
                                                           (escaped templates: only a NUL in the name)
-   bit4 the schema name breaks the header comment (line break / NUL) or the envelope literal (escaped: only NUL)
+   bit4 the schema name breaks the header comment (one-line header: only NUL; raw header: also CR / LF) or the
+        envelope literal (escaped: only NUL)
    bit5 a REGEX member does not compile to a well-formed right-hand side
    bit6 model scope: empty ENUM or NUL inside a constant *)
 Definition schema_clauses (s : schema) (env : bool) : N :=
@@ -82,7 +86,7 @@ Definition schema_clauses (s : schema) (env : bool) : N :=
   + bit (negb (nodupb names)) 1
   + bit (existsb (fun n => str_in n (struct_names env)) names) 2
   + bit (negb (forallb (fun f => name_lit_ok gbnf_field_name_escaped (fd_name f)) (sc_fields s))) 3
-  + bit (negb (comment_safe (sc_name s)
+  + bit (negb (header_ok gbnf_header_name_one_line (sc_name s)
                && (negb env || name_lit_ok gbnf_schema_name_escaped (py_upper (sc_name s) (sc_upper s))))) 4
   + bit (negb (forallb (fun f => negb (is_regex_field f) || regex_field_ok allowed f) (sc_fields s))) 5
   + bit (negb (forallb (fun f => match picked f with Some c => cst_scope_ok c | None => true end) (sc_fields s))) 6.
